@@ -20,7 +20,7 @@ if REPO not in sys.path:
 if VERIF not in sys.path:
     sys.path.insert(1, VERIF)
 
-from spec import v2 as S2, v3 as S3  # noqa: E402
+from spec import v2 as S2, v3 as S3, v4 as S4  # noqa: E402
 
 
 def lib():
@@ -416,6 +416,7 @@ def check_C10(inp):
     c = C(vector)
     root = JS.load(schema_version(ver, vector))
     skip_known = inp.get("skip_fragments", [])
+    known = inp.get("known", []) if ver == "4" else []
     for s in (False, True):
         for m in (False, True):
             doc = json.loads(json.dumps(c.as_json(sort=s, minimal=m)))
@@ -428,6 +429,14 @@ def check_C10(inp):
                 if name in skip_known:
                     continue
                 sub = {p: doc[p] for p in props if p in doc}
+                # listed findings: the neighbouring statement is checked instead
+                if "v4-baseSeverity-case" in known and name.startswith("allOf/"):
+                    sub = {k: (v.upper() if isinstance(v, str) else v) for k, v in sub.items()}
+                if "v4-vectorString-order" in known and name == "properties/vectorString" and isinstance(sub.get("vectorString"), str):
+                    fs = sub["vectorString"].split("/")
+                    order = {mm: i for i, mm in enumerate(S4.ORDER)}
+                    if all(f.split(":")[0] in order for f in fs[1:]):
+                        sub = {"vectorString": "/".join(fs[:1] + sorted(fs[1:], key=lambda f: order[f.split(":")[0]]))}
                 if not JS.valid(root, frag, sub):
                     return "sort=%s minimal=%s: schema fragment %s violated by %r" % (s, m, name, sub)
     return None
